@@ -19,12 +19,12 @@ m = {
         "add_only": True,
     },
     "engines": [
-        {"name": "lean-proofs", "path": "lean/RaftProps", "serves_properties": claimed, "kind_free_text": "Lean 4 theorems about the executable models (RaftModel.*) and about the abstract protocol P (RaftModel/Proto.lean); helper lemmas in RaftProofs"},
+        {"name": "lean-proofs", "path": "lean/RaftProps", "serves_properties": claimed, "kind_free_text": "Lean 4 theorems about the executable component models and the executable node model (RaftModel.*) and about the abstract protocol P (RaftModel/Proto.lean, all histories incl. membership changes); helper lemmas in RaftProofs"},
         {"name": "lean-model-driver", "path": "lean/Main.lean", "serves_properties": claimed, "kind_free_text": "native lean_exe rvm: re-executes trace lines on the models / validates P events and views, compares with the implementation's observations"},
-        {"name": "rust-harness", "path": "harness", "serves_properties": claimed, "kind_free_text": "rvh: drives the real raft-rs code in-process (component executors, cluster simulator with monitors), prints the line protocol"},
+        {"name": "rust-harness", "path": "harness", "serves_properties": claimed, "kind_free_text": "rvh: drives the real raft-rs code in-process (component executors, free-running node correspondence, cluster simulator with monitors, lock-step and fair-suffix scenarios), prints the line protocol"},
     ],
     "checks": [],
-    "notes": "see DESIGN.md; known_findings.json lists genuine defects (all repaired by fix: commits in /repo)",
+    "notes": "see DESIGN.md section 12 (as built); known_findings.json lists the genuine defects of raft-rs found: F1-F14, F16 repaired by fix: commits in /repo (status fixed, suppress nothing), F15 (C10) and F17 (C08) recorded and not repaired (status known: the check re-runs findings/<id> and prints KNOWN-FINDING while it reproduces)",
     "not_applicable": [],
 }
 for p in props:
